@@ -25,7 +25,8 @@ type xSpec struct {
 	Children []xSpec `json:"children,omitempty"`
 }
 
-var xNames = [][2]string{{"urn:A", "x"}, {"urn:B", "y"}, {"", "z"}, {"urn:A", "y"}}
+// the last namespace name is a (legal, relative) URI spelled like the prefix q the styles 3 and 4 declare
+var xNames = [][2]string{{"urn:A", "x"}, {"urn:B", "y"}, {"", "z"}, {"urn:A", "y"}, {"q", "w"}}
 
 type xScope struct {
 	def      string
@@ -278,6 +279,19 @@ func c15Judge(e xSpec) (clause, detail string) {
 	if got := t2.Canon(); got != want {
 		return "token-stream-tree", fmt.Sprintf("got %s want %s", got, want)
 	}
+	// (c') decoding the raw value into the generic container type (what every `,any` field does)
+	// yields the tree that decoding the document directly yields
+	var again internal.RawXMLValue
+	if err := raw.Decode(&again); err != nil {
+		return "decode-error", err.Error()
+	}
+	t4, err := goDOM(again.TokenReader(), 1000)
+	if err != nil {
+		return "decode-token-stream", err.Error()
+	}
+	if got := t4.Canon(); got != want {
+		return "decode-tree", fmt.Sprintf("got %s want %s", got, want)
+	}
 	// (a) marshal and re-read with encoding/xml
 	out, err := xml.Marshal(raw)
 	if err != nil {
@@ -387,7 +401,7 @@ func c15Shrink(e xSpec, clause string) xSpec {
 
 func c15All() []xSpec {
 	var out []xSpec
-	for n := 0; n < 4; n++ {
+	for n := 0; n < len(xNames); n++ {
 		for s := 0; s < 5; s++ {
 			for a := 0; a < 5; a++ {
 				for c := 0; c < 7; c++ {
@@ -401,7 +415,7 @@ func c15All() []xSpec {
 
 func c15Reduced() []xSpec {
 	var out []xSpec
-	for n := 0; n < 4; n++ {
+	for n := 0; n < len(xNames); n++ {
 		for s := 0; s < 5; s++ {
 			out = append(out, xSpec{Name: n, NS: s})
 		}
@@ -476,6 +490,16 @@ func c15TypedCases() []c15Typed {
 	add("error-two", "error", `<§lock-token-submitted/><C:no-uid-conflict xmlns:C="urn:ietf:params:xml:ns:caldav"><§href>/x</§href></C:no-uid-conflict>`, func() interface{} { return &internal.Error{} })
 	add("response", "response", `<§href>/a</§href><§propstat><§prop><§displayname>n</§displayname><X:foo xmlns:X="urn:x">1</X:foo></§prop><§status>HTTP/1.1 200 OK</§status></§propstat><§propstat><§prop><§getetag/></§prop><§status>HTTP/1.1 404 Not Found</§status></§propstat>`, func() interface{} { return &internal.Response{} })
 	add("response-status", "response", `<§href>/a</§href><§href>/b</§href><§status>HTTP/1.1 423 Locked</§status><§error><§lock-token-submitted/></§error><§responsedescription>d</§responsedescription>`, func() interface{} { return &internal.Response{} })
+	// descendants in no namespace (unprefixed in the prefix-only styles), alone and next to DAV: siblings
+	add("resourcetype-nons-children", "resourcetype", `<collection/><principal/>`, func() interface{} { return &internal.ResourceType{} })
+	add("resourcetype-nons-mixed", "resourcetype", `<§collection/><collection/><calendar xmlns=""/>`, func() interface{} { return &internal.ResourceType{} })
+	add("current-user-principal-nons-href", "current-user-principal", `<href>/u/</href>`, func() interface{} { return &internal.CurrentUserPrincipal{} })
+	add("current-user-principal-both-href", "current-user-principal", `<href>/no-ns/</href><§href>/dav/</§href>`, func() interface{} { return &internal.CurrentUserPrincipal{} })
+	add("error-nons", "error", `<lock-token-submitted/><§lock-token-submitted><href>/x</href></§lock-token-submitted>`, func() interface{} { return &internal.Error{} })
+	add("response-nons-href", "response", `<href>/no-ns</href><§href>/a</§href><§status>HTTP/1.1 423 Locked</§status><status>HTTP/1.1 200 OK</status>`, func() interface{} { return &internal.Response{} })
+	add("propstat-nons-status", "propstat", `<§prop><getcontentlength>5</getcontentlength></§prop><status>HTTP/1.1 404 Not Found</status><§status>HTTP/1.1 200 OK</§status>`, func() interface{} { return &internal.PropStat{} })
+	// a namespace name spelled like a prefix that is declared next to it
+	add("resourcetype-uri-like-prefix", "resourcetype", `<q:foo xmlns:q="zz" xmlns:zz="urn:other"/><zz:foo xmlns:zz="D" xmlns:D="zz"/>`, func() interface{} { return &internal.ResourceType{} })
 	add("propstat", "propstat", `<§prop><§getcontentlength>5</§getcontentlength></§prop><§status>HTTP/1.1 200 OK</§status>`, func() interface{} { return &internal.PropStat{} })
 	return out
 }
@@ -501,17 +525,100 @@ func c15TypedJudge(tc c15Typed) (clause, detail string) {
 	if (errD == nil) != (errV == nil) {
 		return "typed-error-differs", fmt.Sprintf("direct err=%v, via raw err=%v", errD, errV)
 	}
-	if errD == nil && !reflect.DeepEqual(direct, via) {
+	if errD == nil && !c15Equal(direct, via) {
 		return "typed-value-differs", fmt.Sprintf("direct %s via raw %s", c15Dump(direct), c15Dump(via))
 	}
 	// Prop.Decode / Response.DecodeProp path
 	if errD == nil {
 		via2 := tc.New()
-		if err := prop.Decode(via2); err != nil || !reflect.DeepEqual(direct, via2) {
+		if err := prop.Decode(via2); err != nil || !c15Equal(direct, via2) {
 			return "typed-prop-decode-differs", fmt.Sprintf("Prop.Decode: %v %s", err, c15Dump(via2))
 		}
 	}
 	return "", ""
+}
+
+// c15Equal compares two decoded values field by field; raw XML values nested in them are compared as
+// namespace-expanded trees (the prefix declarations a raw value happens to remember are not part of
+// the tree it denotes), everything else with reflect.DeepEqual.
+func c15Equal(a, b interface{}) bool {
+	rawT := reflect.TypeOf(internal.RawXMLValue{})
+	var eq func(x, y reflect.Value) bool
+	eq = func(x, y reflect.Value) bool {
+		if x.Type() != y.Type() {
+			return false
+		}
+		if x.Type() == rawT && x.CanAddr() && y.CanAddr() && x.CanInterface() {
+			rx, ry := x.Addr().Interface().(*internal.RawXMLValue), y.Addr().Interface().(*internal.RawXMLValue)
+			tx, ex := goDOM(rx.TokenReader(), 100000)
+			ty, ey := goDOM(ry.TokenReader(), 100000)
+			if ex != nil || ey != nil {
+				return reflect.DeepEqual(x.Interface(), y.Interface())
+			}
+			return tx.Canon() == ty.Canon()
+		}
+		switch x.Kind() {
+		case reflect.Ptr, reflect.Interface:
+			if x.IsNil() || y.IsNil() {
+				return x.IsNil() == y.IsNil()
+			}
+			return eq(x.Elem(), y.Elem())
+		case reflect.Struct:
+			for i := 0; i < x.NumField(); i++ {
+				if !x.Type().Field(i).IsExported() {
+					if !x.Field(i).CanInterface() {
+						continue // compared below as a whole when nothing exported differs
+					}
+				}
+				if !eq(x.Field(i), y.Field(i)) {
+					return false
+				}
+			}
+			// structs without raw values inside: also compare unexported state
+			if !c15HasRaw(x.Type(), rawT, 0) {
+				return reflect.DeepEqual(x.Interface(), y.Interface())
+			}
+			return true
+		case reflect.Slice, reflect.Array:
+			if x.Kind() == reflect.Slice && x.IsNil() != y.IsNil() {
+				return false
+			}
+			if x.Len() != y.Len() {
+				return false
+			}
+			for i := 0; i < x.Len(); i++ {
+				if !eq(x.Index(i), y.Index(i)) {
+					return false
+				}
+			}
+			return true
+		}
+		if !x.CanInterface() {
+			return true
+		}
+		return reflect.DeepEqual(x.Interface(), y.Interface())
+	}
+	return eq(reflect.ValueOf(a), reflect.ValueOf(b))
+}
+
+func c15HasRaw(t, rawT reflect.Type, depth int) bool {
+	if t == rawT {
+		return true
+	}
+	if depth > 6 {
+		return false
+	}
+	switch t.Kind() {
+	case reflect.Ptr, reflect.Slice, reflect.Array:
+		return c15HasRaw(t.Elem(), rawT, depth+1)
+	case reflect.Struct:
+		for i := 0; i < t.NumField(); i++ {
+			if c15HasRaw(t.Field(i).Type, rawT, depth+1) {
+				return true
+			}
+		}
+	}
+	return false
 }
 
 func c15Dump(v interface{}) string {
